@@ -25,6 +25,9 @@ Ext(v) == [k |-> "ext", v |-> v]
 \* both invocations carry option arguments, a for the probe and b for the neighbour (e.g. the same words
 \* split differently over the values of a list-valued option)
 Args2(a, b) == [k |-> "args2", a |-> a, b |-> b]
+\* the neighbour is ANOTHER subcommand with exactly the same arguments and input (commands whose cache payloads
+\* have the same shape must still not share entries)
+OtherCmd(c) == [k |-> "cmd", v |-> c]
 
 C(cmd, pos, input, dims) == [cmd |-> cmd, pos |-> pos, input |-> input, dims |-> dims]
 
@@ -51,6 +54,12 @@ Commands == <<
   \* feature carries two values of one qualifier
   C("query", <<"-n", "note">>, "partD", <<Val2("-t", "{byte:c2}{byte:a6}", "{byte:c2}{byte:b7}"), Val2("-d", "{byte:c2}{byte:a6}", "{byte:c2}{byte:b7}"),
                                          Val2("-t", "ab", "ac"), Val2("-d", "ab", "ac")>>),
+  C("rotate", <<"^+10">>, "phix", <<OtherCmd("split"), OtherCmd("delete"), OtherCmd("extract")>>),
+  C("split", <<"^+10">>, "phix", <<OtherCmd("rotate")>>),
+  C("reverse", <<>>, "part", <<OtherCmd("complement"), OtherCmd("clear"), OtherCmd("repair"), OtherCmd("sort"), OtherCmd("join")>>),
+  C("clear", <<>>, "part", <<OtherCmd("repair"), OtherCmd("reverse")>>),
+  C("delete", <<"CDS">>, "phix", <<OtherCmd("extract"), OtherCmd("split")>>),
+  C("insert", <<"^+10", "{file:part}">>, "phix", <<OtherCmd("infix")>>),
   C("join", <<>>, "two", <<Flag("-c"), In("phix"), Fmt, Ext(".fasta")>>),
   C("pick", <<"1">>, "two", <<Flag("-f"), Pos(1, "2"), In("phix"), Fmt, Ext(".fasta")>>),
   C("query", <<>>, "phix", <<Val("-n", "gene"), Val2("-n", "gene", "product"), Val("-d", ";"), Val2("-d", ";", ":"), Val("-t", "|"), Val2("-t", "|", "+"),
@@ -87,6 +96,7 @@ Neighbour(c, d) ==
     [] d.k = "input" -> Inv(c.cmd, c.pos, d.v)
     [] d.k = "ext"   -> [Inv(c.cmd, c.pos, c.input) EXCEPT !.ext = d.v]
     [] d.k = "args2" -> Inv(c.cmd, d.b \o c.pos, c.input)
+    [] d.k = "cmd"   -> Inv(d.v, c.pos, c.input)
 
 RECURSIVE JoinS(_)
 JoinS(ss) == IF ss = <<>> THEN "" ELSE Head(ss) \o " " \o JoinS(Tail(ss))
